@@ -15,6 +15,15 @@
   * `targetOf w i c` — the target of relation component `c` of the entity with ID `i`, read
                       through the index (as `valOf` / `compsOf` of `Ark/Props/C01World.lean`).
 
+  * `PLink w fl`    — the index ↔ pool link (§ 3).  It does NOT demand that the memory behind the
+                      pool slice (`Pool.stale`, kept and invalidated by `Reset`) is empty, only that
+                      it holds handles of generation `maxU32` (as `CInv.stale`), so that the joint
+                      invariant survives `Reset` (`Ark.Proofs.RelRefine2Reset`).  A live handle is
+                      therefore given by `2 ≤ e.id`, `e.id ∉ fl`, `w.alive e = true` and
+                      `e.id < w.pool.ents.length` (the ID lies inside the slice): `PLink.aliveIff`,
+                      `live_entry`, `removed`; `alive_in`: alive and not of generation `maxU32`
+                      implies inside the slice; `alive_inj` needs neither.
+
   List level: `setTargets` (the loop `targets[idx(r.comp)] = r.target` shared by `createTable`
   and `getExchangeTargets(Unchecked)`), `colRels` (the relation list read off the columns).
   Kernel-only proofs, core Lean only.
@@ -483,12 +492,17 @@ end SInvMid
 
 /-! ## 3. the pool link: index ↔ pool, without the fragment restrictions of `CInv` -/
 
+/-- a handle stored in its slot has an ID inside the pool slice -/
+theorem Pool.lt_of_slot {p : Pool} {e : Ent} (h : p.ents[e.id]? = some e) : e.id < p.ents.length :=
+  (List.getElem?_eq_some_iff.mp h).1
+
 /-- the entity index and the entity pool describe the same set of live IDs (`fl` = the ghost
-    free list of the pool) -/
+    free list of the pool); the memory behind the pool slice only holds invalidated handles -/
 structure PLink (w : World) (fl : List Nat) : Prop where
   idx : IdxInv w
   pool : Pool.PInv w.pool fl
-  stale : w.pool.stale = []
+  /-- the memory behind the pool slice (retained by `Reset`) only holds invalidated handles -/
+  stale : ∀ (e : Ent), e ∈ w.pool.stale → e.gen = maxU32
   lenEq : w.entities.length = w.pool.ents.length
   tgtLen : w.isTarget.length = w.entities.length
   freeUnindexed : ∀ (i : Nat), i ∈ fl → ∃ (r : Nat), w.entities[i]? = some (maxU32, r)
@@ -501,25 +515,42 @@ namespace PLink
 
 variable {w : World} {fl : List Nat}
 
-theorem aliveIff (h : PLink w fl) (e : Ent) (hnf : e.id ∉ fl) :
+/-- liveness is exact for IDs inside the pool slice and outside the free list -/
+theorem aliveIff (h : PLink w fl) (e : Ent) (hnf : e.id ∉ fl) (hin : e.id < w.pool.ents.length) :
     w.alive e = true ↔ w.pool.ents[e.id]? = some e := by
   simp only [World.alive]
-  exact h.pool.alive_iff h.stale e hnf
+  exact h.pool.alive_iff_lt e hnf hin
 
-/-- an alive handle has an ID inside the index / flag arrays -/
-theorem alive_lt (h : PLink w fl) {e : Ent} (ha : w.alive e = true) : e.id < w.entities.length := by
-  rw [World.alive, Pool.alive_eq h.stale] at ha
-  rw [h.lenEq]
+/-- an ID inside the pool slice is inside the index / flag arrays -/
+theorem lt_of_in (h : PLink w fl) {e : Ent} (hin : e.id < w.pool.ents.length) :
+    e.id < w.entities.length := by rw [h.lenEq]; exact hin
+
+/-- an alive handle that does not carry the sentinel generation has an ID inside the pool slice
+    (the memory behind the slice only holds handles of generation `maxU32`) -/
+theorem alive_in (h : PLink w fl) {e : Ent} (ha : w.alive e = true) (hg : e.gen ≠ maxU32) :
+    e.id < w.pool.ents.length := by
   rcases Nat.lt_or_ge e.id w.pool.ents.length with h1 | h1
   · exact h1
-  · rw [List.getElem?_eq_none h1] at ha; cases ha
+  · exfalso
+    simp only [World.alive, Pool.alive, List.getElem?_append_right h1] at ha
+    cases hs : w.pool.stale[e.id - w.pool.ents.length]? with
+    | none => rw [hs] at ha; cases ha
+    | some s =>
+      rw [hs] at ha
+      have h2 : s.gen = e.gen := by simpa using ha
+      exact hg (h2 ▸ h.stale s (List.mem_of_getElem? hs))
 
-/-- two alive handles with the same ID are equal -/
-theorem alive_inj (h : PLink w fl) {e e' : Ent} (ha : w.alive e = true) (ha' : w.alive e' = true)
+/-- an alive handle that does not carry the sentinel generation has an ID inside the index / flag
+    arrays -/
+theorem alive_lt (h : PLink w fl) {e : Ent} (ha : w.alive e = true) (hg : e.gen ≠ maxU32) :
+    e.id < w.entities.length := h.lt_of_in (h.alive_in ha hg)
+
+/-- two alive handles with the same ID are equal (also behind the slice) -/
+theorem alive_inj (_h : PLink w fl) {e e' : Ent} (ha : w.alive e = true) (ha' : w.alive e' = true)
     (hid : e.id = e'.id) : e = e' := by
-  rw [World.alive, Pool.alive_eq h.stale] at ha ha'
+  simp only [World.alive, Pool.alive] at ha ha'
   rw [hid] at ha
-  cases hs : w.pool.ents[e'.id]? with
+  cases hs : (w.pool.ents ++ w.pool.stale)[e'.id]? with
   | none => rw [hs] at ha; cases ha
   | some s =>
     rw [hs] at ha ha'
@@ -527,10 +558,10 @@ theorem alive_inj (h : PLink w fl) {e e' : Ent} (ha : w.alive e = true) (ha' : w
     cases e; cases e'; simp_all
 
 theorem live_entry (h : PLink w fl) {e : Ent} (h2 : 2 ≤ e.id) (hnf : e.id ∉ fl)
-    (ha : w.alive e = true) :
+    (ha : w.alive e = true) (hin : e.id < w.pool.ents.length) :
     ∃ (t r : Nat), w.entities[e.id]? = some (t, r) ∧ t ≠ maxU32 ∧ w.pool.ents[e.id]? = some e := by
-  have hs := (h.aliveIff e hnf).mp ha
-  obtain ⟨t, r, hi, ht⟩ := h.liveIndexed e.id h2 (h.alive_lt ha) hnf
+  have hs := (h.aliveIff e hnf hin).mp ha
+  obtain ⟨t, r, hi, ht⟩ := h.liveIndexed e.id h2 (h.lt_of_in hin) hnf
   exact ⟨t, r, hi, ht, hs⟩
 
 /-- a step that keeps the pool and the length of the flag array and only moves indexed entities
@@ -592,7 +623,9 @@ structure PlacedLink (w : World) (fl : List Nat) (t : Nat) (e : Ent) (w' : World
     (e.id < w.entities.length ∧ fl = e.id :: fl.tail)
   alive : w'.alive e = true
   aliveFrame : ∀ (h : Ent), h.id ≠ e.id → w'.alive h = w.alive h
-  aliveMono : ∀ (h : Ent), w.alive h = true → w'.alive h = true
+  /-- (for a handle behind the pool slice this fails: `getNew` overwrites the first cell of the
+      memory `Reset` kept there) -/
+  aliveMono : ∀ (h : Ent), h.id < w.pool.ents.length → w.alive h = true → w'.alive h = true
   frame : ∀ (j : Nat), j ≠ e.id → SameEnt w w' j
   lookup : ∀ (i : Nat), w'.entities[i]? =
     if i = e.id then some (t, (w.tbl t).len) else w.entities[i]?
@@ -643,10 +676,14 @@ theorem PLink.placed {w : World} {fl : List Nat} (h : PLink w fl) {t : Nat}
     rw [hT, place_tables]
   have htlen : (placedW w t rt).tables.length = w.tables.length := by
     rw [hTab, List.length_set]
-  have hst' : (placedW w t rt).pool.stale = [] := by rw [placedW_pool]; exact g.stale h.stale
+  have hst' : ∀ (e : Ent), e ∈ (placedW w t rt).pool.stale → e.gen = maxU32 := by
+    rw [placedW_pool]
+    exact fun e he => h.stale e (Pool.get_stale_sub w.pool e he)
   have hAF : ∀ (x : Ent), x.id ≠ (w.pool.get).2.id → (placedW w t rt).alive x = w.alive x := by
     intro x hx
-    exact Pool.alive_congr h.stale hst' x (by rw [placedW_pool]; exact g.other x.id hx)
+    show (placedW w t rt).pool.alive x = w.pool.alive x
+    rw [placedW_pool]
+    exact Pool.get_alive_frame w.pool fl h.pool x hx
   have hFr : ∀ (j : Nat), j ≠ (w.pool.get).2.id → SameEnt w (placedW w t rt) j :=
     fun j hj => (same_place h.idx _ t hle hj).congr hE hT
   have hlink : PLink (placedW w t rt) fl.tail := by
@@ -697,8 +734,10 @@ theorem PLink.placed {w : World} {fl : List Nat} (h : PLink w fl) {t : Nat}
     rw [hL, if_pos rfl]
   have htabE : (placedW w t rt).tables[t]? = some ((w.tbl t).add (w.pool.get).2).1 := by
     rw [hTab]; exact List.getElem?_set_self hlt
+  have hsl : (placedW w t rt).pool.ents[(w.pool.get).2.id]? = some (w.pool.get).2 := by
+    rw [placedW_pool]; exact g.slot
   have halive : (placedW w t rt).alive (w.pool.get).2 = true :=
-    (hlink.aliveIff (w.pool.get).2 g.notin).mpr (by rw [placedW_pool]; exact g.slot)
+    (hlink.aliveIff (w.pool.get).2 g.notin (List.getElem?_eq_some_iff.mp hsl).1).mpr hsl
   refine
     { link := hlink
       ge2 := g.ge2
@@ -717,13 +756,13 @@ theorem PLink.placed {w : World} {fl : List Nat} (h : PLink w fl) {t : Nat}
   · rcases g.cases with ⟨a, b, c⟩ | ⟨a, b, _⟩
     · exact Or.inl ⟨by rw [h.lenEq]; exact a, b, c⟩
     · exact Or.inr ⟨by rw [h.lenEq]; exact a, b⟩
-  · intro x hx
+  · intro x hxin hx
     by_cases hxe : x.id = (w.pool.get).2.id
-    · -- the recycled slot keeps its generation; a new slot was not alive before
+    · -- the recycled slot keeps its generation; a new slot lies behind the slice
       have hxa := hx
-      rw [World.alive, Pool.alive_eq h.stale] at hxa
+      rw [World.alive, Pool.alive_of_lt x hxin] at hxa
       rcases g.cases with ⟨a, _, _⟩ | ⟨_, _, s, hs, hsg⟩
-      · rw [hxe, a, List.getElem?_eq_none (Nat.le_refl _)] at hxa; cases hxa
+      · rw [hxe, a] at hxin; exact absurd hxin (Nat.lt_irrefl _)
       · rw [hxe, hs] at hxa
         have : x = (w.pool.get).2 := by
           have h1 : s.gen = x.gen := by simpa using hxa
@@ -776,9 +815,9 @@ structure RemovedLink (w : World) (fl : List Nat) (e : Ent) (t row : Nat) (w' : 
 
 /-- **removal**: the removal block of `RemoveEntity` for a live handle in any table. -/
 theorem PLink.removed {w : World} {fl : List Nat} (h : PLink w fl) {e : Ent} (h2 : 2 ≤ e.id)
-    (hnf : e.id ∉ fl) (ha : w.alive e = true) :
+    (hnf : e.id ∉ fl) (ha : w.alive e = true) (hin : e.id < w.pool.ents.length) :
     ∃ (t row : Nat), w.index e.id = (t, row) ∧ RemovedLink w fl e t row (removeRowOf w e t row) := by
-  obtain ⟨t, row, he, ht, hs⟩ := h.live_entry h2 hnf ha
+  obtain ⟨t, row, he, ht, hs⟩ := h.live_entry h2 hnf ha hin
   refine ⟨t, row, index_of_get he, ?_⟩
   obtain ⟨hTt, hrow, hid⟩ := h.idx.indexed he ht
   obtain ⟨rp, rslot, rother, rlen, rstale, _⟩ := Pool.recycle_spec w.pool fl e h.pool h2 hnf hs
@@ -803,10 +842,13 @@ theorem PLink.removed {w : World} {fl : List Nat} (h : PLink w fl) {e : Ent} (h2
     rw [hT, unplace_tables]
   have htlen : (removeRowOf w e t row).tables.length = w.tables.length := by
     rw [hTab, List.length_set]
-  have hst' : (removeRowOf w e t row).pool.stale = [] := by rw [hP, rstale]; exact h.stale
+  have hst' : ∀ (x : Ent), x ∈ (removeRowOf w e t row).pool.stale → x.gen = maxU32 := by
+    rw [hP, rstale]; exact h.stale
   have hAF : ∀ (x : Ent), x.id ≠ e.id → (removeRowOf w e t row).alive x = w.alive x := by
     intro x hx
-    exact Pool.alive_congr h.stale hst' x (by rw [hP]; exact rother x.id hx)
+    show (removeRowOf w e t row).pool.alive x = w.pool.alive x
+    rw [hP]
+    exact Pool.alive_congr_slot x rstale rlen (rother x.id hx)
   have hlink : PLink (removeRowOf w e t row) (e.id :: fl) := by
     refine
       { idx := h.idx.removeRowOf he ht
@@ -853,7 +895,7 @@ theorem PLink.removed {w : World} {fl : List Nat} (h : PLink w fl) {e : Ent} (h2
       tables := hTab
       rowLt := hrow }
   show (removeRowOf w e t row).pool.alive e = false
-  rw [Pool.alive_eq hst', hP, rslot]
+  rw [Pool.alive_of_lt e (by rw [hP, rlen]; exact hin), hP, rslot]
   show (e.gen + 1 == e.gen) = false
   simp
 
